@@ -5,6 +5,7 @@ From Coq Require Import List NArith ZArith Lia Bool Arith.
 From Coq Require Import Init.Byte.
 From FFS Require Import Base.Res Base.Bytes Keystore.Json Keystore.JsonFacts Keystore.Prims
   Keystore.Model Keystore.Spec Keystore.ReadTypes Keystore.ProofsNew Keystore.ProofsRead Keystore.TotalProofs6 Keystore.TotalProofs7.
+From FFS Require Keystore.IntText Keystore.TotalProofs2.
 Import ListNotations.
 Local Open Scope string_scope.
 Local Open Scope list_scope.
@@ -15,6 +16,26 @@ Proof.
   rewrite (field_mset_other "id" (jkey "crypto")) by (vm_compute; discriminate).
   rewrite (field_mset_other "id" (jkey "version")) by (vm_compute; discriminate).
   rewrite (field_mset_same "id"). reflexivity.
+Qed.
+
+(* the allocation cap of scrypt.Key read off a marshalled wallet (strict reading of crypto.kdfparams.n / .r)
+   is the cap on the wallet's own parameters *)
+Lemma marshalled_alloc w : kdf_ints (w_kdfparams w) -> doc_alloc_ok (JSON_tree w) = kdf_cost_capped (w_kdfparams w).
+Proof.
+  intros Hi. unfold JSON_tree, marshalWalletJSON, Keystore.ReadTypes.doc_alloc_ok, obj_field.
+  rewrite (field_mset_same "crypto"). unfold crypto_json, crypto_common_members.
+  cbn [app].
+  match goal with |- context [field "kdfparams" ?l] =>
+    change (field "kdfparams" l) with (Some (kdfparams_json (w_kdfparams w))) end.
+  cbv beta iota.
+  destruct (w_kdfparams w) as [[dklen n p r salt]|[dklen c prf salt]]; cbn [kdfparams_json kdf_cost_capped sp_dklen sp_n sp_p sp_r sp_salt].
+  - unfold int_field.
+    change (field "n" _) with (Some (jint n)).
+    change (field "r" _) with (Some (jint r)).
+    unfold jint. cbv beta iota.
+    destruct Hi as (_ & Hn & _ & Hr). cbn [sp_n sp_r] in Hn, Hr.
+    rewrite (Keystore.IntText.parse_print_int64 n Hn), (Keystore.IntText.parse_print_int64 r Hr). reflexivity.
+  - unfold int_field. change (field "n" _) with (@None json). reflexivity.
 Qed.
 
 Section Reread.
@@ -46,7 +67,12 @@ Proof.
   intros H w' U N.
   assert (D : v3_decrypt_gen false P (JSON_tree w') pw = Ok (PrivateKey w)).
   { apply (lenient_read_then_strict_md false P L16 t pw w); [exact H|apply assign_all_same|discriminate]. }
-  destruct (read_is_standard P L LT false _ pw _ D U N) as (w2 & R & K & id & Vid & G & _).
+  assert (Hal : doc_alloc_ok (JSON_tree w') = true).
+  { destruct (assign_all_same w extras) as (_ & _ & Ek & _). fold w' in Ek.
+    destruct (read_wallet_shape P L16 t pw w H) as (_ & _ & _ & Hi).
+    rewrite marshalled_alloc by (rewrite Ek; exact Hi). rewrite Ek.
+    exact (Keystore.TotalProofs2.accept_capped P t pw w H). }
+  destruct (read_is_standard P L LT false _ pw _ D U N Hal) as (w2 & R & K & id & Vid & G & _).
   exists w2. split; [exact R|]. split; [exact K|].
   intros LR. destruct (read_wallet_shape P L16 t pw w H) as (_ & (u & Hid & Lu) & _).
   assert (Hid' : cf_id (w_core w') = Some u).
